@@ -56,6 +56,43 @@ fn main() {
             let tier = Tier::parse(&args[2]).unwrap();
             std::process::exit(fw::worker_main(find(&args[1]), tier, &args[3..]));
         }
+        "miri-cases" => {
+            let stride: usize = args.get(2).and_then(|s| s.parse().ok()).unwrap_or(1);
+            std::process::exit(props::c01::miri_cases(stride));
+        }
+        "miri" => {
+            // executes one shard of a case list, meant to be run by `cargo +nightly miri run -- miri <id> <file> <shard> <n>`
+            let shard = (args.get(3).and_then(|s| s.parse().ok()).unwrap_or(0), args.get(4).and_then(|s| s.parse().ok()).unwrap_or(1));
+            let rc = match args.get(1).map(|s| s.as_str()) {
+                Some("C01") | Some("c01") => props::c01::miri_main(args.get(2).map(|s| s.as_str()).unwrap_or(""), shard),
+                _ => {
+                    eprintln!("no Miri stage for this check");
+                    2
+                }
+            };
+            std::process::exit(rc);
+        }
+        "post" => {
+            // run only the post-run stage of a check (development aid)
+            let tier = Tier::parse(args.get(2).map(|s| s.as_str()).unwrap_or("thorough")).unwrap_or(Tier::Thorough);
+            match find(&args[1]).post_run(tier) {
+                None => println!("no post-run stage"),
+                Some(p) => {
+                    for (k, v) in &p.coverage {
+                        println!("coverage {}: {}", k, v);
+                    }
+                    for (s, d, t) in &p.violations {
+                        println!("VIOLATION sig={} :: {} :: {}", s, fw::truncate(d, 600), fw::truncate(t, 300));
+                    }
+                    for m in &p.machinery_errors {
+                        println!("MACHINERY-ERROR {}", m);
+                    }
+                    for a in &p.assumptions {
+                        println!("assumption {}", a);
+                    }
+                }
+            }
+        }
         "count" => {
             let tier = Tier::parse(&args[2]).unwrap_or_else(|| usage());
             let v = fw::count_cases(find(&args[1]), tier);
